@@ -31,6 +31,8 @@ def disk_undirected(H, spec):
     strs = all(isinstance(n, str) for n in H.nodes) and all(isinstance(e, str) for e in H.edges)
     node_int = all(isinstance(n, int) for n in H.nodes)
     edge_int = all(isinstance(e, int) for e in H.edges)
+    ncast = int if node_int else (str if all(isinstance(n, str) for n in H.nodes) else None)
+    ecast = int if edge_int else (str if all(isinstance(e, str) for e in H.edges) else None)
     # HIF
     p = _p("h.hif.json")
     xgi.write_hif(H, p)
@@ -64,6 +66,10 @@ def disk_undirected(H, spec):
             p = _p("bel.txt")
             xgi.write_bipartite_edgelist(H, p, delimiter=d)
             H2 = xgi.read_bipartite_edgelist(p, delimiter=d, nodetype=int if node_int else None, edgetype=int if edge_int else None)
+            H2b = xgi.read_bipartite_edgelist(p, delimiter=d, nodetype=ncast, edgetype=ecast)  # both casts explicit
+            if ncast and ecast and inc(H2b) != I0:
+                bad("bipartite-edgelist", f"bipartite edge list (delimiter {d!r}) read with nodetype={ncast.__name__}, "
+                    f"edgetype={ecast.__name__}: {sorted(inc(H2b), key=repr)}, wrote {sorted(I0, key=repr)}")
             if inc(H2) != I0:
                 bad("bipartite-edgelist", f"bipartite edge list (delimiter {d!r}): read {sorted(inc(H2), key=repr)}, wrote "
                     f"{sorted(I0, key=repr)}")
@@ -180,6 +186,9 @@ def family(tier):
     for s in base[::6]:
         items.append(("H", F.with_empty_edge(decorate(s, 2))))
         items.append(("H", decorate(F.relabel(s, node_map={n: "v%d" % n for n in s["nodes"]}), 1)))
+    # node labels and edge IDs whose text coincides, to be read back with two different casts
+    items += [("H", F.H([[1, 2], [2, 3], [1, 3]], ids=["1", "2", "7"])), ("H", F.H([["1", "2"], ["2", "x"]], ids=[1, 2])),
+              ("H", F.H([[0, 1, 2], [2, 3]], ids=["0", "3"], nodes=[0, 1, 2, 3]))]
     # single-row / single-column matrices explicitly
     items += [("H", F.H([[1]])), ("H", F.H([[1], [1]])), ("H", F.H([[1, 2, 3]])), ("H", F.H([[1], [1], [1]])),
               ("H", F.H([[1, 2]], nodes=[1, 2, 3]))]
